@@ -345,3 +345,19 @@ for _C in _R7:
     assert _C.__name__ not in globals(), _C.__name__
     globals()[_C.__name__] = _C
 ALL += _R7
+
+
+# ---- round 8 (audit of functions without a contract): the remaining thin wrappers of the rolling / ewm / group-by API
+_R8 = [
+    W('Rolling', 'std', "call('self._known_aggregation', self, 'std')", props_=('C11',)),
+    W('Rolling', 'var', "call('self._known_aggregation', self, 'var')", props_=('C11',)),
+    W('Rolling', 'count', "call('self._known_aggregation', self, 'count')", props_=('C11',)),
+    W('EWM', 'mean', "call('self.aggregate', self, call('aggregations.EWMean', self._com))", (), ['_com'], props_=('C11', 'C12')),
+    W('GroupBy', '__getitem__', "call('GroupBy', self.root, self.grouper, index)", ['index'], ['grouper'], ['root']),
+    W('WindowedGroupBy', '__getitem__', "call('WindowedGroupBy', self.root, self.grouper, index, self.n, self.value, self.with_state, self.start)",
+      ['index'], ['grouper', 'n', 'value', 'with_state', 'start'], ['root'], props_=('C07', 'C12')),
+]
+for _C in _R8:
+    assert _C.__name__ not in globals(), _C.__name__
+    globals()[_C.__name__] = _C
+ALL += _R8
